@@ -360,6 +360,8 @@ void pv_observe(const polyseed_data* s, unsigned coin, pv_obs* o) {
     pv_api_store(s, img); memcpy(o->image, img, 32); free(img);
     o->birthday = pv_api_get_birthday(s);
     for (unsigned m = 0; m < 8; ++m) o->feat[m] = pv_api_get_feature(s, m);
+    { static const unsigned HI[] = { 0xfffffff8u, 0x10u, 0x18u, 0x8u, 0xf0u, 0x80000010u }; static __thread unsigned rot;
+      for (unsigned m = 0; m < 8; ++m) { o->hi_mask[m] = m | HI[rot++ % (sizeof HI / sizeof *HI)]; o->feat_hi[m] = pv_api_get_feature(s, o->hi_mask[m]); } }
     o->encrypted = pv_api_is_encrypted(s);
     uint8_t* key = malloc(32);
     int saved = pv_w->kdf_mode; pv_w->kdf_mode = 0;
@@ -381,6 +383,7 @@ const char* pv_seed_mismatch(const polyseed_data* s, const pv_mseed* m, unsigned
     if (memcmp(o.image, img, 32)) { snprintf(msg, sizeof msg, "store bytes %s, model %s", pv_hex(o.image, 32), pv_hex(img, 32)); return msg; }
     if (o.birthday != pv_m_birthday_time(m->birthday)) { snprintf(msg, sizeof msg, "get_birthday %llu, model %llu", (unsigned long long)o.birthday, (unsigned long long)pv_m_birthday_time(m->birthday)); return msg; }
     for (unsigned q = 0; q < 8; ++q) if (o.feat[q] != (m->features & q & 7)) { snprintf(msg, sizeof msg, "get_feature(mask %u) = %u, model %u", q, o.feat[q], m->features & q & 7); return msg; }
+    for (unsigned q = 0; q < 8; ++q) if (o.feat_hi[q] != (m->features & q & 7)) { snprintf(msg, sizeof msg, "get_feature(mask 0x%x) = %u on a seed with feature bits %u: only the three user bits may be reported (model %u)", o.hi_mask[q], o.feat_hi[q], m->features, m->features & q & 7); return msg; }
     if (o.encrypted != (int)((m->features >> 4) & 1)) { snprintf(msg, sizeof msg, "is_encrypted %d, model %u", o.encrypted, (m->features >> 4) & 1); return msg; }
     if (o.nkdf != 1) { snprintf(msg, sizeof msg, "keygen called the KDF %d times", o.nkdf); return msg; }
     if (o.pwlen != 32 || memcmp(o.pw, pw, 32)) { snprintf(msg, sizeof msg, "KDF password (len %zu) %s, model %s", o.pwlen, pv_hex(o.pw, 32), pv_hex(pw, 32)); return msg; }
@@ -458,6 +461,17 @@ polyseed_data* pv_seed_by_path(pv_rng* rng, const pv_mseed* m, int how, unsigned
         pv_api_crypt(s, pw2); pv_w->fail_countdown = 0;
         return s; }
     }
+}
+
+/* a seed with abstract value m by a rotating path (half of the time the plain load); counted per path */
+polyseed_data* pv_seed_any_path(pv_rng* rng, const pv_mseed* m, unsigned coin) {
+    static __thread unsigned rot;
+    int how = 1;
+    if (pv_randn(rng, 2)) { how = (int)(rot++ % PV_NPATHS); if (how == 0 && (m->features & 16)) how = 3; }
+    polyseed_data* s = pv_seed_by_path(rng, m, how, coin);
+    if (s) pv_countf(1, "seedpath.%s", pv_path_name[how]);
+    else pv_countf(1, "seedpath.failed.%s", pv_path_name[how]);
+    return s;
 }
 
 
